@@ -84,6 +84,14 @@ def run(prop, tier, seed):
             samples.append({"instance": inst["cfg"], "mode": "jit-step", "behaviour": chk.summarize(behs[0])})
         for b in behs[n_jit_i:n_jit_i + n_prog_i]:
             ctx = {"act": "Program", "cfg": inst["cfg"]}
+            # A behaviour that already deviates when replayed eagerly is reported as that deviation (and matched against
+            # the known findings with its proper step context); the transformed programs are only run on conforming ones.
+            mm0 = replay.Replayer().run(b)
+            if mm0 is not None:
+                mm0["note"] = "[eager, before program checks] " + mm0["note"]
+                add(mm0, b)
+                n_replayed += 1
+                continue
             try:
                 if inst.get("kalman"):
                     programs.kalman_scan(b)
